@@ -35,7 +35,7 @@ m = {
     ],
     "checks": checks,
     "not_applicable": na,
-    "notes": "Exit codes of bin/check: 0 all obligations discharged; 1 + VIOLATION line: an obligation that is discharged on the unchanged tree failed (counterexample replayed on the real crate where the bounded search finds one, else no-failing-input-found); 2 UNDECIDED (tool limit, lost anchor, resource limit) -- never an alarm. Fix commits in /repo: see KNOWN_FINDINGS.txt.",
+    "notes": "Exit codes of bin/check: 0 all obligations discharged (KNOWN-FINDING lines for recorded defects); 1 + VIOLATION line: the obligation of an edited function, discharged on the unchanged tree, failed -- with the failing input found by the property's small-scope search replayed on the real crate, or ending in no-failing-input-found where no search executes that function (props/reach.json); a failed bounded stand-in; or an undecided obligation plus a concrete counterexample. 2 UNDECIDED (tool limit, lost anchor, resource limit, failure of an unchanged function, or a failed obligation whose function a completed search exercised without finding a failing input) -- never an alarm. Fix commits in /repo and recorded findings: KNOWN_FINDINGS.txt; decision rule: DESIGN.md section 7.",
 }
 json.dump(m, open(os.path.join(ROOT, "MANIFEST.json"), "w"), indent=1)
 print("checks:", [c["property_id"] for c in checks], "n/a:", [x["property_id"] for x in na])
